@@ -1429,7 +1429,9 @@ class PyFlow:
                 out = []
                 for q, l in self.ev(a0.left, p, depth, no_effect=no_effect):
                     for q2, r in self.ev(a0.right, q, depth, no_effect=no_effect):
-                        out.append((q2, div8(l) if r.const_value() == 8 else call("floordiv", l, r)))
+                        # int(x / 8) on a bit cursor is the byte index (cursors are small and non-negative); in general
+                        # int(a / b) goes through a float and is NOT a // b (precision above 2**53, rounding towards zero)
+                        out.append((q2, div8(l) if r.const_value() == 8 else call("int_truediv", l, r)))
                 return out
             return self.ev(a0, p, depth, no_effect=no_effect)
         if fname in ("byte", "uint8") and isinstance(f, ast.Name) and len(e.args) == 1 and fname not in self.funcs:
